@@ -5,6 +5,8 @@
 -/
 import ParsleyVerif.Proofs.RegexInt
 import ParsleyVerif.Proofs.RegexChar
+import ParsleyVerif.Proofs.RegexDuration
+import ParsleyVerif.Proofs.RegexLang
 namespace PV
 open PV.Text
 open Rx
@@ -15,7 +17,6 @@ theorem integerMatch_eq_first (l : Bytes) : integerMatch l = integerRe.first l :
   rw [intBody_head (signLen l) l.length (l.drop (signLen l)) (by simp)]
   rfl
 
-
 theorem backquoteMatch_eq_first (l : Bytes) : backquoteMatch l = backquoteRe.first l := by
   unfold backquoteMatch Re.first
   rw [backquoteRe_eq, head?_plus_byte _ _ _ (Nat.le_refl _)]
@@ -23,5 +24,19 @@ theorem backquoteMatch_eq_first (l : Bytes) : backquoteMatch l = backquoteRe.fir
 theorem charMatch_eq_first (l : Bytes) : charMatch l = charRe.first l := by
   unfold Re.first
   rw [charRe_eq, charCore_head]
+
+theorem floatMatch_eq_first (l : Bytes) : floatMatch l = floatRe.first l := by
+  unfold Re.first
+  rw [floatRe_eq, head?_signed _ _ _ (fun c t e hc => by rw [e]; exact floatBody_sign _ c t hc (by rw [← e]; exact Nat.le_refl _)),
+    floatBody_head (signLen l) l.length (l.drop (signLen l)) (by simp)]
+  unfold floatMatch floatModel
+  simp only [List.drop_drop]
+  rfl
+
+theorem durationMatch_eq_first (l : Bytes) : durationMatch l = durationRe.first l := by
+  unfold Re.first
+  rw [durationRe_eq, head?_signed _ _ _ (fun c t e hc => by rw [e]; exact item_sign _ c t hc),
+    head?_items (signLen l) l.length (l.drop (signLen l)) (by simp)]
+  rfl
 
 end PV
